@@ -122,7 +122,7 @@ def probe_variants(run, fields=("falsy", "index", "embed", "nest", "syntax", "in
 
 
 REJECT = ("InvalidSelectorError", "InvalidValueError")
-FUNCS = ("validate", "get", "is_marked", "add", "remove", "clear", "set", "ctor", "is_marked_inh", "get_inh")
+FUNCS = ("validate", "get", "is_marked", "add", "remove", "clear", "set", "ctor", "is_marked_inh", "get_inh", "ctor_lang")
 CODES = {"ok": "o", "InvalidSelectorError": "S", "MarkingNotFoundError": "M", "TypeNotVersionableError": "T",
          "ObjectNotVersionableError": "O", "RevokeError": "R", "InvalidValueError": "V", "n/a": "-"}
 
@@ -162,8 +162,10 @@ def oracle_case(build, tree, selectors, results, cfg):
             self_ref = sel.split(".")[0] in ("granular_markings", "object_marking_refs")
         for fn in FUNCS:
             o = r[fn]
-            if o == "n/a" or (self_ref and fn in ("add", "remove", "clear", "set", "ctor")):
+            if o == "n/a" or (self_ref and fn in ("add", "remove", "clear", "set", "ctor", "ctor_lang")):
                 continue
+            if fn == "ctor_lang" and build["version"] == "2.0":
+                continue                      # 2.0 granular markings have no `lang`: refused whatever the selector
             rejected = any(x in o for x in REJECT)
             if addressed and rejected:
                 tags = set()
@@ -513,7 +515,9 @@ def replay(payload):
     bad = []
     self_ref = any(x.split(".")[0] in ("granular_markings", "object_marking_refs") for x in sel_l)
     for fn in FUNCS:
-        if o[fn] == "n/a" or (self_ref and fn in ("add", "remove", "clear", "set", "ctor")):
+        if o[fn] == "n/a" or (self_ref and fn in ("add", "remove", "clear", "set", "ctor", "ctor_lang")):
+            continue
+        if fn == "ctor_lang" and r["build"]["version"] == "2.0":
             continue
         rejected = any(x in o[fn] for x in REJECT)
         if addressed == rejected:
